@@ -133,6 +133,21 @@ func (h4) Gen(prop, tier string, r *simrt.Rng) (any, simrt.Config) {
 	default:
 		c.Ops = append(c.Ops, H4Op{Kind: "stop", AfterNs: max(span(), 1)})
 	}
+	if r.Intn(6) == 0 {
+		// f1's own shape: a fast schedule, a slower one after a long delay, a callback that can be slower than a tick,
+		// Restart while the slower schedule is active (and the callback possibly in flight), then a long look at what follows
+		f0 := int64(simrt.Pick(r, 5, 10, 50)) * ms
+		f1 := f0*int64(simrt.Pick(r, 3, 10)) + ms
+		d1 := f0*int64(simrt.Pick(r, 40, 60)) + 3
+		c.Schedules = []H4Sched{{DelayNs: 0, FreqNs: f0}, {DelayNs: d1, FreqNs: f1}}
+		n, longest = 2, f1
+		c.FnNs = nil
+		for i, m := 0, r.Intn(4); i < m; i++ {
+			c.FnNs = append(c.FnNs, simrt.Pick(r, int64(0), f0/3+7, f0+11, f1/2+5, f1+13))
+		}
+		c.Ops = []H4Op{{Kind: "restart", AfterNs: d1 + f1*int64(1+r.Intn(3)) + int64(r.Intn(int(f1)))},
+			{Kind: simrt.Pick(r, "stop", "cancel"), AfterNs: d1 / 2}}
+	}
 	var fnMax int64
 	for _, d := range c.FnNs {
 		fnMax = max(fnMax, d)
@@ -309,6 +324,35 @@ func (h h4) Run(env *Env, cfg any) {
 		env.Violate("C18", "goroutine-left", "leak/"+leakSig(sh.leftover), "after Stop/cancel and %s of quiet time a runner goroutine remains: %s", dur(c.FlushNs), strings.Join(sh.leftover, " | "))
 	}
 	env.Hit("h4.end_checked")
+	// Restart moves back to the first schedule: once a Restart made after Start has had time to be handled (the
+	// function in flight and a few pending ticks: the runner handles one event at a time), and until the second
+	// schedule's start delay has passed again, every invocation is the first schedule's
+	if len(c.Schedules) > 1 && sh.startSeq > 0 {
+		var maxFreq int64
+		for _, sc := range c.Schedules {
+			maxFreq = max(maxFreq, sc.FreqNs)
+		}
+		slack := 4*(fnMax+maxFreq) + int64(stats.Stalls)*(int64(max(env.SimCfg.StallMaxMs, 0))*ms+ms)
+		for _, ro := range restarts {
+			if ro.CallNs < sh.startNs || (endNs >= 0 && ro.CallNs >= endNs) {
+				continue
+			}
+			lo, hi := ro.CallNs+slack, ro.CallNs+c.Schedules[1].DelayNs
+			if endNs >= 0 && endNs < hi {
+				hi = endNs
+			}
+			for i, inv := range sh.invs {
+				if inv.BeginNs > lo && inv.BeginNs < hi && inv.Freq != c.Schedules[0].FreqNs {
+					env.Violate("C18", "restart-lost", "raterun/restart", "invocation %d at %s still carries frequency %s, %s after Restart was called at %s: the first schedule (%s) is the active one until %s",
+						i, dur(inv.BeginNs), dur(inv.Freq), dur(inv.BeginNs-ro.CallNs), dur(ro.CallNs), dur(c.Schedules[0].FreqNs), dur(ro.CallNs+c.Schedules[1].DelayNs))
+					return
+				}
+			}
+			if hi > lo {
+				env.Hit("h4.restart_effect_checked")
+			}
+		}
+	}
 	// exact reference for instantaneous functions in stall-free runs without restarts racing ticks
 	if len(c.FnNs) == 0 && stats.Stalls == 0 {
 		var want []int64
